@@ -309,7 +309,9 @@ structure DealMsg where
 /-- per-dealer verifier kept by the generator -/
 inductive VerSt where
   | noAgg                              -- stored, `aggregator == nil` (its deal failed)
-  | agg (responses : List Nat)         -- aggregator with responses from these indices
+  /-- aggregator with responses from these indices; `deal`: the deal `VerifyDeal` stored in it
+  (`none`: nothing stored; `some v`: stored, its share value present = `v`) -/
+  | agg (responses : List Nat) (deal : Option Bool)
   deriving DecidableEq, Repr
 
 structure DkgSt where
@@ -321,7 +323,7 @@ structure DkgSt where
 
 /-- the generator as the deal stage finds it: `Deals()` has processed the own deal
 (own verifier with the own response recorded; the dealer's aggregator is still empty) -/
-def DkgSt.init (n me : Nat) : DkgSt := { n := n, me := me, vers := [(me, .agg [me])] }
+def DkgSt.init (n me : Nat) : DkgSt := { n := n, me := me, vers := [(me, .agg [me] (some true))] }
 
 def vlookup (k : Nat) : List (Nat × VerSt) → Option VerSt
   | [] => none
@@ -350,6 +352,17 @@ def verifyDeal (cfg : Cfg) (n : Nat) (p : Plain) (i : Nat) (vPresent : Bool) : E
   else if !vPresent then .error (.panic "vss.aggregator.VerifyDeal|ifacenil|fi.V")
   else .ok p.shareOK
 
+/-- what `VerifyDeal` leaves in `aggregator.deal` for the plaintext of `enc` (it stores the deal before
+validating it, unless its first guard — share value missing — returns) -/
+def storedDeal (cfg : Cfg) (enc : Option Enc) : Option Bool :=
+  match enc with
+  | some e => match e.opened with
+    | .plain p => match p.share with
+      | some (_, v) => if cfg.shareVNil && !v then none else some v
+      | none => none
+    | _ => none
+  | none => none
+
 /-- `Verifier.ProcessEncryptedDeal`: approval (`true`) / complaint (`false`) -/
 def processEncryptedDeal (cfg : Cfg) (n me : Nat) (enc : Option Enc) : Except Out Bool :=
   match decryptDeal cfg enc with
@@ -360,7 +373,8 @@ def processEncryptedDeal (cfg : Cfg) (n me : Nat) (enc : Option Enc) : Except Ou
     match p.share with
     | none => if cfg.secShareNil then .error (.err "noshare") else .error (.panic "vss.Verifier.ProcessEncryptedDeal|deref|d.SecShare.I")
     | some (i, vPresent) =>
-      if i ≠ me then .error (.err "wrongindex")
+      if cfg.secShareNil && !vPresent then .error (.err "noshare")     -- c743079: before the aggregator exists
+      else if i ≠ me then .error (.err "wrongindex")
       else verifyDeal cfg n p i vPresent
 
 /-- `DistKeyGenerator.ProcessDeal` as `getAndProcessDeals` uses it -/
@@ -374,7 +388,7 @@ def processDeal (cfg : Cfg) (st : DkgSt) (m : DealMsg) : DkgSt × Out :=
     | .error o => (st1, o)
     | .ok approve =>
       -- aggregator created; own response recorded, then UnsafeSetResponseDKG(dealer index)
-      let st2 := { st with vers := vset m.idx (.agg [st.me, m.idx].eraseDups) st.vers }
+      let st2 := { st with vers := vset m.idx (.agg [st.me, m.idx].eraseDups (storedDeal cfg m.enc)) st.vers }
       (st2, if approve then .ok "approval" else .err "noapproval")
 
 /-- an honest deal for verifier `me` from dealer `idx` with threshold `t` -/
@@ -412,14 +426,14 @@ def processResponse (cfg : Cfg) (st : DkgSt) (m : RespMsg) : DkgSt × Out :=
       (st, if cfg.respVerOk then .err "nodeal" else .panic "dkg.DistKeyGenerator.ProcessResponse|mapzero|d.verifiers[resp.Index]")
     | some .noAgg =>
       (st, if cfg.aggNil then .err "nodealyet" else .panic "vss.aggregator.verifyResponse|deref|r.SessionID")
-    | some (.agg recorded) =>
+    | some (.agg recorded deal) =>
       match m.resp with
       | none => (st, .panic "vss.aggregator.verifyResponse|deref|r.SessionID")
       | some r =>
         match verifyResponse cfg st.n recorded r with
         | .error o => (st, o)
         | .ok rec' =>
-          let st1 := { st with vers := vset m.idx (.agg rec') st.vers }
+          let st1 := { st with vers := vset m.idx (.agg rec' deal) st.vers }
           if m.idx ≠ st.me then (st1, .ok "")
           else
             -- a response about our own deal also goes to our dealer's aggregator
@@ -428,6 +442,20 @@ def processResponse (cfg : Cfg) (st : DkgSt) (m : RespMsg) : DkgSt × Out :=
             | .ok drec =>
               let st2 := { st1 with dealerResps := drec }
               (st2, if r.approve then .ok "" else .ok "justification")
+
+def VerSt.noDeal : VerSt → Bool
+  | .agg _ none => true
+  | _ => false
+
+def VerSt.noValue : VerSt → Bool
+  | .agg _ (some false) => true
+  | _ => false
+
+/-- `DistKeyShare` (genGroup) reads `deal.SecShare.V` of every certified verifier's stored deal -/
+def distKeyShare (st : DkgSt) : Out :=
+  if st.vers.any (fun e => e.2.noDeal) then .panic "dkg.DistKeyGenerator.DistKeyShare|deref|deal.SecShare.V"
+  else if st.vers.any (fun e => e.2.noValue) then .panic "dkg.DistKeyGenerator.DistKeyShare|ifacenil|deal.SecShare.V"
+  else .ok ""
 
 inductive DkgOp where
   | deal (m : DealMsg)
